@@ -314,15 +314,19 @@ impl<const H: usize> Writer<H> {
             return Ok(());
         }
 
-        self.sync()?;
-
-        self.flushed_offset.set(offset);
-        self.write_offset = offset;
+        // Hand buffered bytes to the OS without publishing them through the flushed offset:
+        // readers must never be able to see the part that is being truncated.
+        self.writer.flush()?;
 
         // Write full zero header as clear truncation marker
         let zero_header = [0u8; RECORD_HEAD_SIZE];
         self.writer.get_ref().write_all_at(&zero_header, offset)?;
         self.writer.get_ref().sync_data()?;
+
+        // Everything before `offset` is now durable; publish exactly that.
+        self.flushed_offset.set(offset);
+        self.write_offset = offset;
+        self.dirty = false;
 
         // Move the buffered writer's file cursor back too, or the next append lands at the
         // old position instead of `write_offset`.
